@@ -143,11 +143,8 @@ Qed.
 (* ------------------------------------------------------------------------------------------ *)
 (* protocol: step lemmas for the frames the honest peers write                                 *)
 (* ------------------------------------------------------------------------------------------ *)
-(* the two ends' generations: each at least ours and a byte; at least one end is this code base (two NEWER
-   peers would settle on a version this model does not contain) *)
-Definition gens_ok (cfg : config) : Prop :=
-  c_maxSupportProtoVersion <= cgen cfg < 256 /\ c_maxSupportProtoVersion <= sgen cfg < 256 /\
-  (cgen cfg = c_maxSupportProtoVersion \/ sgen cfg = c_maxSupportProtoVersion).
+(* the server's generation: at least ours, and a byte *)
+Definition gens_ok (cfg : config) : Prop := c_maxSupportProtoVersion <= sgen cfg < 256.
 Definition good (cfg : config) : Prop :=
   paths_ok (qpath cfg) (bpath cfg) /\ (qpath cfg <> bpath cfg /\ gens_ok cfg).
 
@@ -179,15 +176,15 @@ Ltac consts := unfold c_maxSupportProtoVersion, c_protoVersion, c_typeExchangePr
   c_typeShareMemoryByFilePath, c_typeShareMemoryByMemfd, c_typeAckShareMemory, c_typeAckReadyRecvFD,
   c_minEventType, c_maxEventType, c_headerSize in *.
 
-Lemma min_gens cfg : gens_ok cfg -> Z.min (cgen cfg) (sgen cfg) = 3.
-Proof. unfold gens_ok, c_maxSupportProtoVersion. intros (A & B & [C|C]); lia. Qed.
+Lemma min_gens cfg : gens_ok cfg -> Z.min c_maxSupportProtoVersion (sgen cfg) = 3.
+Proof. unfold gens_ok, c_maxSupportProtoVersion. lia. Qed.
 
 Lemma cstep_waitver cfg ver rest po : mt cfg = MMemfd -> gens_ok cfg ->
   cstep cfg CWaitVer ver (hdr8 (sgen cfg) c_typeExchangeProtoVersion :: rest) po =
   Some (cwrite po 3 rest [FBytes (encode_header c_headerSize (sgen cfg) c_typeExchangeProtoVersion)]
           [FBytes (generate 3 c_typeShareMemoryByMemfd (qpath cfg) (bpath cfg))] CWaitAckReady).
 Proof.
-  intros Hm G. pose proof (min_gens cfg G) as Hmin. destruct G as (A & B & _). unfold c_maxSupportProtoVersion in *.
+  intros Hm G. pose proof (min_gens cfg G) as Hmin. unfold gens_ok in G. unfold c_maxSupportProtoVersion in G.
   unfold cstep. rewrite read_hdr8 by (consts; lia). rewrite expect_ok by (consts; lia).
   cbn [h_ver mkhdr]. rewrite Hmin. rewrite Hm. reflexivity.
 Qed.
@@ -251,19 +248,20 @@ Proof.
   rewrite check_valid_ok by (consts; lia). reflexivity.
 Qed.
 Lemma sstep_first_exch cfg f ver rest po : gens_ok cfg ->
-  sstep (sgen cfg) f SWaitFirst ver (hdr8 (cgen cfg) c_typeExchangeProtoVersion :: rest) po =
+  sstep (sgen cfg) f SWaitFirst ver (hdr8 c_maxSupportProtoVersion c_typeExchangeProtoVersion :: rest) po =
   if po
   then Some {| so_pc := SWaitMeta; so_ver := 3; so_mapq := None; so_mapb := None; so_inbox := rest;
-               so_cons := [FBytes (encode_header c_headerSize (cgen cfg) c_typeExchangeProtoVersion)];
+               so_cons := [FBytes (encode_header c_headerSize c_maxSupportProtoVersion c_typeExchangeProtoVersion)];
                so_write := [hdr8 (sgen cfg) c_typeExchangeProtoVersion] |}
-  else Some (sfail 3 None rest [FBytes (encode_header c_headerSize (cgen cfg) c_typeExchangeProtoVersion)] (RErr EPipe)).
+  else Some (sfail 3 None rest [FBytes (encode_header c_headerSize c_maxSupportProtoVersion c_typeExchangeProtoVersion)] (RErr EPipe)).
 Proof.
-  intros G. pose proof (min_gens cfg G) as Hmin. destruct G as (A & B & _). unfold c_maxSupportProtoVersion in *.
+  intros G. pose proof (min_gens cfg G) as Hmin. unfold gens_ok in G.
   unfold sstep. rewrite read_hdr8 by (consts; lia). rewrite check_valid_ok by (consts; lia).
   cbn [h_ver h_type mkhdr].
-  destruct (cgen cfg =? c_initializerVersion_2) eqn:E2; [apply Z.eqb_eq in E2; unfold c_initializerVersion_2 in E2; lia|].
-  rewrite Hmin. change (c_initializerVersion_3 <=? 3) with true. cbv iota.
-  rewrite Z.eqb_refl. reflexivity.
+  change (c_maxSupportProtoVersion =? c_initializerVersion_2) with false.
+  change (c_initializerVersion_3 <=? c_maxSupportProtoVersion) with true. cbv iota.
+  destruct (c_maxSupportProtoVersion <=? sgen cfg) eqn:E; [|apply Z.leb_gt in E; lia]. cbn [andb].
+  rewrite Z.eqb_refl. rewrite Hmin. reflexivity.
 Qed.
 Lemma sstep_meta_memfd g f q b rest po : paths_ok q b ->
   sstep g f SWaitMeta 3 (FBytes (generate 3 c_typeShareMemoryByMemfd q b) :: rest) po =
@@ -410,7 +408,7 @@ Proof.
 Qed.
 
 Lemma negotiated_file cfg : gens_ok cfg -> mt cfg = MFile -> negotiated cfg = 2.
-Proof. intros (A & B & _) H. unfold negotiated, client_version. rewrite H. unfold c_protoVersion, c_maxSupportProtoVersion in *. lia. Qed.
+Proof. intros A H. unfold gens_ok in A. unfold negotiated, client_version. rewrite H. unfold c_protoVersion, c_maxSupportProtoVersion in *. lia. Qed.
 Lemma negotiated_memfd cfg : gens_ok cfg -> mt cfg = MMemfd -> negotiated cfg = 3.
 Proof. intros G H. unfold negotiated, client_version. rewrite H. apply min_gens. assumption. Qed.
 
@@ -1041,19 +1039,16 @@ Proof.
 Qed.
 
 Definition wit_file : config := {| mt := MFile; unix := true; qpath := [47; 113]; bpath := [47; 98]; qobj := 11; bobj := 22;
-                                   cgen := c_maxSupportProtoVersion; sgen := c_maxSupportProtoVersion |}.
+                                   sgen := c_maxSupportProtoVersion |}.
 Definition wit_memfd : config := {| mt := MMemfd; unix := true; qpath := [47; 113]; bpath := [47; 98]; qobj := 11; bobj := 22;
-                                    cgen := c_maxSupportProtoVersion; sgen := c_maxSupportProtoVersion |}.
-(* a server of a newer generation / a client of a newer generation *)
+                                    sgen := c_maxSupportProtoVersion |}.
+(* a server of a newer generation *)
 Definition wit_newer_server : config := {| mt := MMemfd; unix := true; qpath := [47; 113]; bpath := [47; 98]; qobj := 11; bobj := 22;
-                                           cgen := c_maxSupportProtoVersion; sgen := 255 |}.
-Definition wit_newer_client : config := {| mt := MMemfd; unix := true; qpath := [47; 113]; bpath := [47; 98]; qobj := 11; bobj := 22;
-                                           cgen := 4; sgen := c_maxSupportProtoVersion |}.
+                                           sgen := 255 |}.
 Ltac good_wit := split; [split; vm_compute; reflexivity|split; [discriminate|unfold gens_ok; cbn; unfold c_maxSupportProtoVersion; lia]].
 Lemma wit_file_good : good wit_file. Proof. good_wit. Qed.
 Lemma wit_memfd_good : good wit_memfd. Proof. good_wit. Qed.
 Lemma wit_newer_server_good : good wit_newer_server. Proof. good_wit. Qed.
-Lemma wit_newer_client_good : good wit_newer_client. Proof. good_wit. Qed.
 
 Definition both_ends_full : Prop :=
   forall cfg sch rc rs, good cfg ->
@@ -1086,27 +1081,32 @@ Proof. vm_compute. repeat split. Qed.
    server (2), its own generation (3), a newer one (4, 5, ... 255): it goes on with min(3, v) and does
    not fail; v = 1 has no initializer and is an error *)
 Lemma client_picks_min cfg ver rest v :
-  mt cfg = MMemfd -> cgen cfg = c_maxSupportProtoVersion -> 2 <= v < 256 ->
+  mt cfg = MMemfd -> 2 <= v < 256 ->
   exists o, cstep cfg CWaitVer ver (hdr8 v c_typeExchangeProtoVersion :: rest) true = Some o /\
             co_ver o = Z.min c_maxSupportProtoVersion v /\ (forall e, co_pc o <> CDone (RErr e)).
 Proof.
-  intros Hm Hc Hv. unfold cstep. rewrite read_hdr8 by (consts; lia). rewrite expect_ok by (consts; lia).
-  cbn [h_ver mkhdr]. rewrite Hc, Hm. unfold c_maxSupportProtoVersion, c_initializerVersion_2, c_initializerVersion_3.
+  intros Hm Hv. unfold cstep. rewrite read_hdr8 by (consts; lia). rewrite expect_ok by (consts; lia).
+  cbn [h_ver mkhdr]. rewrite Hm. unfold c_maxSupportProtoVersion, c_initializerVersion_2, c_initializerVersion_3.
   destruct (Z.min 3 v =? 2) eqn:E2.
   - apply Z.eqb_eq in E2. eexists. split; [reflexivity|]. cbn. split; [lia|discriminate].
   - apply Z.eqb_neq in E2. assert (E3 : Z.min 3 v = 3) by lia. rewrite E3. cbn.
     eexists. split; [reflexivity|]. cbn. split; [reflexivity|discriminate].
 Qed.
-(* this code base's server (generation 3) against a first event that advertises ANY version v >= 3 *)
-Lemma server_picks_min f ver rest v :
-  c_maxSupportProtoVersion <= v < 256 ->
-  exists o, sstep c_maxSupportProtoVersion f SWaitFirst ver (hdr8 v c_typeExchangeProtoVersion :: rest) true = Some o /\
+(* this code base's server (generation 3) and the version its peer's first event announces: 3 is served by the
+   V3 initialiser; anything above 3 — a client of a generation the property does not speak about — is turned
+   away with an error before anything is written or mapped *)
+Lemma server_serves_v3 f ver rest :
+  exists o, sstep c_maxSupportProtoVersion f SWaitFirst ver (hdr8 c_maxSupportProtoVersion c_typeExchangeProtoVersion :: rest) true = Some o /\
             so_ver o = c_maxSupportProtoVersion /\ so_pc o = SWaitMeta /\
             so_write o = [hdr8 c_maxSupportProtoVersion c_typeExchangeProtoVersion].
+Proof. eexists. split; [vm_compute; reflexivity|]. cbn. auto. Qed.
+Lemma server_rejects_newer_client f ver rest v po :
+  c_maxSupportProtoVersion < v < 256 ->
+  sstep c_maxSupportProtoVersion f SWaitFirst ver (hdr8 v c_typeExchangeProtoVersion :: rest) po =
+  Some (sfail ver None rest [FBytes (encode_header c_headerSize v c_typeExchangeProtoVersion)] (RErr EUnsupportedVersion)).
 Proof.
   intros Hv. unfold c_maxSupportProtoVersion in *. unfold sstep. rewrite read_hdr8 by (consts; lia).
   rewrite check_valid_ok by (consts; lia). cbn [h_ver h_type mkhdr].
   destruct (v =? c_initializerVersion_2) eqn:E2; [apply Z.eqb_eq in E2; unfold c_initializerVersion_2 in E2; lia|].
-  assert (E3 : Z.min v 3 = 3) by lia. rewrite E3. change (c_initializerVersion_3 <=? 3) with true. cbv iota.
-  rewrite Z.eqb_refl. eexists. split; [reflexivity|]. cbn. auto.
+  destruct (v <=? 3) eqn:E3; [apply Z.leb_le in E3; lia|]. rewrite andb_false_r. reflexivity.
 Qed.
